@@ -13,6 +13,9 @@ Definition nonalnum (rest : list Z) : Prop := match rest with [] => True | c :: 
 Lemma nonalnum_stops base rest : base <= 36 -> nonalnum rest -> stops_at (is_bdigit base) rest.
 Proof. destruct rest as [|c r]; cbn; [trivial|]. unfold is_bdigit. intros Hb H. rewrite H. lia. Qed.
 
+Lemma strncmp_eq_app' lit rest n : n = length lit -> strncmp_eq (lit ++ rest) lit n = true.
+Proof. intros ->. apply strncmp_eq_app. Qed.
+
 (* ---------- the digits StringBuilder::append_ produces ---------- *)
 Definition dec (n : Z) : list Z := digits_f 64 n [].
 
@@ -73,7 +76,7 @@ Proof.
     change (d :: ds' ++ rest) with ((d :: ds') ++ rest).
     rewrite take_while_app, drop_while_app by (try apply all_digits_bdigit; assumption). reflexivity.
   - rewrite take_while_head_false, drop_while_head_false by reflexivity.
-    unfold sign_split. cbn [Z.eqb orb fst snd]. change ((45 =? 45) || (45 =? 43)) with true. cbn [fst snd].
+    change (sign_split (45 :: d :: ds' ++ rest)) with ([45], d :: ds' ++ rest). cbn [fst snd].
     rewrite prefix_split_not16 by lia. cbn [fst snd].
     change (d :: ds' ++ rest) with ((d :: ds') ++ rest).
     rewrite take_while_app, drop_while_app by (try apply all_digits_bdigit; assumption). reflexivity.
@@ -86,7 +89,7 @@ Proof.
   destruct Hsg as [->| ->]; cbn [app].
   - unfold detect_base. cbn [hd] in Hz.
     destruct (Z.eqb_spec d base_lead) as [E|E].
-    + unfold base_lead in E. specialize (Hz E). injection Hz as ->. cbn [app].
+    + unfold base_lead in E. specialize (Hz E). injection Hz as Hds. subst ds'. cbn [app].
       destruct rest as [|c r]; [reflexivity|]. cbn in Hr.
       unfold base_hex_c1, base_hex_c2, base_oct_lo, base_oct_hi, base_default.
       unfold digit_val in Hr.
@@ -124,8 +127,9 @@ Proof.
     destruct Hsg as [->| ->]; cbn [app]; eexists; eexists; (split; [reflexivity|]); unfold is_digit in *; lia. }
   destruct Hhead as (c & x & Ex & Hc).
   unfold parse_signed. rewrite Ex. rewrite signed_kw_none by assumption. rewrite <- Ex. rewrite Hbase.
-  unfold strtoll. rewrite Hscan. cbn [sc_ds]. destruct ds as [|d ds'] eqn:Eds; [congruence|]. rewrite <- Eds in *.
-  unfold sc_len, sc_neg. cbn [sc_ds sc_ws sc_sign sc_pre]. rewrite Eds at 1. rewrite <- Eds.
+  assert (Hm : forall (A : Type) (a b : A), match ds with [] => a | _ :: _ => b end = b) by (intros; destruct ds; [congruence | reflexivity]).
+  unfold strtoll. rewrite Hscan. cbn [sc_ds]. rewrite Hm.
+  unfold sc_len, sc_neg. cbn [sc_ds sc_ws sc_sign sc_pre]. rewrite !Hm.
   rewrite value_base_digits by assumption.
   assert (Hv' : (if match sg with c0 :: _ => c0 =? 45 | [] => false end then - value ds else value ds) = v).
   { rewrite Hv. destruct Hsg as [->| ->]; reflexivity. }
@@ -171,7 +175,7 @@ Qed.
 
 Lemma existsb_minus_digits ds : all_digits ds -> existsb (Z.eqb 45) ds = false.
 Proof.
-  induction 1 as [|d r Hd Hr IH]; cbn; [reflexivity|]. rewrite IH. unfold is_digit in Hd.
+  induction 1 as [|d r Hd Hr IH]; cbn [existsb]; [reflexivity|]. rewrite IH. unfold is_digit in Hd.
   destruct (Z.eqb_spec 45 d); [lia | reflexivity].
 Qed.
 
@@ -192,17 +196,19 @@ Proof.
   assert (Hc0 : (d =? unsigned_neg_char) = false) by (unfold unsigned_neg_char, is_digit in *; lia).
   rewrite Hc0. cbn [andb].
   rewrite unsigned_kw_none by (unfold is_digit in Hdd; lia).
-  rewrite <- Ex. rewrite Hbase. unfold strtoull. rewrite Hscan. cbn [sc_ds]. rewrite Eds at 1. rewrite <- Eds.
-  unfold sc_len, sc_neg. cbn [sc_ds sc_ws sc_sign sc_pre]. rewrite Eds at 1. rewrite <- Eds.
+  rewrite <- Ex. rewrite Hbase.
+  assert (Hm : forall (A : Type) (a b : A), match ds with [] => a | _ :: _ => b end = b) by (intros; destruct ds; [congruence | reflexivity]).
+  unfold strtoull. rewrite Hscan. cbn [sc_ds]. rewrite Hm.
+  unfold sc_len, sc_neg. cbn [sc_ds sc_ws sc_sign sc_pre]. rewrite !Hm.
   rewrite value_base_digits by assumption.
   assert (H0 : 0 <= value ds) by (apply value_acc_nonneg; [lia | assumption]).
   destruct (Z.gtb_spec (value ds) c_ULLONG_MAX); [lia|].
   cbn [length Nat.add]. rewrite orb_false_r.
   assert (Hl0 : (length ds =? 0)%nat = false) by (apply Nat.eqb_neq; rewrite Eds; cbn; lia).
-  assert (Hm : existsb (Z.eqb 45) (firstn (length ds) (ds ++ rest)) = false).
+  assert (Hmc : existsb (Z.eqb 45) (firstn (length ds) (ds ++ rest)) = false).
   { rewrite firstn_app_exact. apply existsb_minus_digits. assumption. }
   destruct ((value ds =? c_ULLONG_MAX) && e) eqn:Eb;
-    rewrite Hl0, Hm; (destruct (Z.gtb_spec (value ds) umax); [lia|]); cbn; eexists; reflexivity.
+    rewrite Hl0, Hmc; (destruct (Z.gtb_spec (value ds) umax); [lia|]); cbn; eexists; reflexivity.
 Qed.
 
 Lemma parse_unsigned_umax e rest umax :
@@ -212,7 +218,7 @@ Proof.
   change (117 =? 45) with false. cbn [andb].
   unfold unsigned_keywords. cbn [unsigned_kw]. rewrite strncmp_eq_head_ne by lia.
   change (117 :: 109 :: 97 :: 120 :: rest) with ([117; 109; 97; 120] ++ rest).
-  rewrite (strncmp_eq_app [117; 109; 97; 120] rest).
+  rewrite (strncmp_eq_app' [117; 109; 97; 120] rest 4 eq_refl).
   unfold unsigned_kw_half_char. change (117 =? 105) with false. cbn. eexists. reflexivity.
 Qed.
 
@@ -228,8 +234,9 @@ Proof.
   intros Hmax Hr Hlt Hrest. rewrite print_ulong_small by lia.
   assert (Hn : 0 <= v < 2 ^ 64) by (consts; lia).
   destruct (dec_spec v Hn) as (Hd & Hne & _ & _).
-  rewrite <- (dec_value v Hn) at 2.
-  apply parse_unsigned_dec; try assumption; [apply dec_zero_form; assumption | rewrite dec_value by assumption; lia].
+  destruct (parse_unsigned_dec e (dec v) rest umax Hd Hne (dec_zero_form v Hn) Hrest Hmax) as (e' & E).
+  { rewrite dec_value by assumption; lia. }
+  rewrite dec_value in E by assumption. exists e'. exact E.
 Qed.
 
 (* ---------- the typed front ends ---------- *)
@@ -265,8 +272,10 @@ Proof.
     + change (append_num v true) with (dec v).
       assert (Hn : 0 <= v < 2 ^ 64) by (consts; lia).
       destruct (dec_spec v Hn) as (Hd & Hnn & _ & _).
-      rewrite <- (dec_value v Hn) at 2.
-      apply parse_unsigned_dec; try assumption; [apply dec_zero_form; assumption | consts; lia | rewrite dec_value by assumption; lia].
+      destruct (parse_unsigned_dec e (dec v) rest ullong_max Hd Hnn (dec_zero_form v Hn) Hrest) as (e' & E).
+      { consts; lia. }
+      { rewrite dec_value by assumption; lia. }
+      rewrite dec_value in E by assumption. exists e'. exact E.
 Qed.
 
 (* bool: any continuation *)
@@ -277,18 +286,19 @@ Proof.
   - unfold bool_false_str, parse_bool. cbn [app]. unfold bool_words. cbn [bool_kw].
     rewrite !strncmp_eq_head_ne by lia.
     change (102 :: 97 :: 108 :: 115 :: 101 :: rest) with ([102; 97; 108; 115; 101] ++ rest).
-    rewrite (strncmp_eq_app [102; 97; 108; 115; 101] rest). reflexivity.
+    rewrite (strncmp_eq_app' [102; 97; 108; 115; 101] rest 5 eq_refl). reflexivity.
   - unfold bool_true_str, parse_bool. cbn [app]. unfold bool_words. cbn [bool_kw].
     rewrite !strncmp_eq_head_ne by lia.
     change (116 :: 114 :: 117 :: 101 :: rest) with ([116; 114; 117; 101] ++ rest).
-    rewrite (strncmp_eq_app [116; 114; 117; 101] rest). reflexivity.
+    rewrite (strncmp_eq_app' [116; 114; 117; 101] rest 4 eq_refl). reflexivity.
 Qed.
 
 (* char: every byte; a backslash must not be followed by one of the escape letters (they are letters: nonalnum excludes them) *)
 Theorem roundtrip_char c e rest : 0 <= c <= 255 -> nonalnum rest ->
   parse_scalar 1 e (print_scalar 1 c ++ rest) = mkp true c 1 e.
 Proof.
-  intros Hc Hr. unfold parse_scalar, print_scalar. cbn [Z.eqb]. cbv iota. cbn [app]. unfold parse_char.
+  intros Hc Hr. change (print_scalar 1 c) with [c]. change (parse_scalar 1 e ([c] ++ rest)) with (parse_char e ([c] ++ rest)).
+  cbn [app]. unfold parse_char.
   destruct (Z.eqb_spec c char_escape_lead) as [E|E]; [|reflexivity].
   destruct rest as [|d r]; [reflexivity|]. cbn [hd]. cbn in Hr.
   unfold char_escapes. cbn [assoc].
